@@ -101,7 +101,11 @@ CLAIMED['C18'] = dict(
         'returns the same collection type (Track stays chronological), preserves order (sublist), that collection bounds are the componentwise min/max of member '
         'bounds, and that len/iter/in/+/[] behave as the underlying list; per-shape predicates universally quantified. Tied to the code by an in-Coq '
         'correspondence instantiating the predicates with the implementation own per-member answers on FeatureCollections and Tracks of 0..12 mixed shapes, '
-        'with asymmetric containment pairs and deep snapshots of the source before/after.',
+        'with asymmetric containment pairs and deep snapshots of the source before/after. Props/C18b.v (9 theorems, closed) adds the filter algebra for any per-shape '
+        'predicates on well-formed collections: filtering twice = filtering by the conjunction, two filters commute, a filter is idempotent, true/false predicates give the '
+        'collection / the empty collection of the same class, a stronger predicate selects an in-order sub-sequence of a weaker one, a filter and its complement partition the '
+        'members, only the answers on the members matter; the commutation / composition / idempotence / order / monotonicity laws are also evaluated on the implementation over '
+        'chained library-returned collections (250 / 5000 seeded cases).',
    note='Trusted: Coq kernel + vm_compute; FilterM mirrors the comprehensions (translator tie, DESIGN 9.6, + correspondence); harness. Hull containment is relative to C10 (explicit premise). '
         'Source non-mutation is observed by the correspondence, not a theorem (the model is pure). No axioms.',
    technique='Coq proof (filters = List.filter, sublist, min/max) + oracle-instantiated in-Coq correspondence + translator tie (the five filters: 9 GenEq lemmas)',
